@@ -375,6 +375,61 @@ def rand_tuple(rng, sh, maxlen=3, arrays='any'):
     return out
 
 
+def rand_multi(rng, sh):
+    """An index tuple with (usually) two or more array entries for the leaf shape: integer arrays of shapes that
+    broadcast to a common shape B (suffixes of B, some dimensions 1), masks of rank 1 / 2 whose number of True
+    entries is the last dimension of B (or 1), ints, slices, full slices, an optional Ellipsis.  Mostly legal;
+    NumPy rejects a few (mask count / broadcast mismatch): those go to the malformed stream."""
+    r = len(sh)
+    B = rng.choice([[2], [3], [2], [1], [2, 2], [1, 2], [2, 1], [3, 1], []])
+    L = B[-1] if B else 1
+    use_ell = rng.random() < 0.4
+    if use_ell:
+        before = rng.randint(0, r)
+        after = rng.randint(0, r - before)
+    else:
+        before = rng.randint(min(2, r), r)
+        after = 0
+    axes = list(range(before)) + list(range(r - after, r))
+    out = []
+    k = 0
+    while k < len(axes):
+        ax = axes[k]
+        n = sh[ax]
+        kind = rng.choice(['a', 'a', 'a', 'm', 'm', 'i', 's', 'all'])
+        if kind == 'a':
+            shp = list(B[rng.randint(0, len(B)):])
+            shp = [1 if rng.random() < 0.25 else d for d in shp]
+            vals = [rng.randrange(-n, n) for _ in range(prod(shp))]
+            out.append(arr(shp, vals, rand_dtype(rng, vals)))
+        elif kind == 'm':
+            two = k + 1 < len(axes) and axes[k + 1] == ax + 1 and rng.random() < 0.35
+            dims = [n, sh[ax + 1]] if two else [n]
+            size = prod(dims)
+            cnt = min(L if rng.random() < 0.8 else 1, size)
+            bits = [False] * size
+            for p in rng.sample(range(size), cnt):
+                bits[p] = True
+            out.append(['m', dims, bits])
+            if two:
+                k += 1
+        elif kind == 'i':
+            out.append(['i', rng.randrange(-n, n)])
+        elif kind == 's':
+            out.append(rand_slice(rng, n))
+        else:
+            out.append(['s', None, None, None])
+        k += 1
+    if use_ell:
+        pos = 0
+        cov = 0
+        while pos < len(out) and cov < before:
+            cov += len(out[pos][1]) if out[pos][0] == 'm' else 1
+            pos += 1
+        out.insert(pos, ['e'])
+    return out
+
+
 def has_kind(idx, k):
     return any(e[0] == k for e in idx)
 
@@ -398,16 +453,21 @@ class Check(PropertyCheck):
     shard = 300
     workers = 8
     partial = (
-        'unique_indices inference and the gather of tuples with TWO OR MORE array entries (several masks, mask + integer '
-        'array: broadcast advanced indices) - their gather is read off the implementation, so unique_inference_sound '
-        '(proved for every int/slice/Ellipsis expression with at most one mask) is only tested for them: NoDup of the '
-        'NumPy selection whenever unique_indices is inferred True'
+        'index tuples with np.newaxis/None entries and out-of-bounds integers are outside the model (the property '
+        'quantifies over in-bounds int/slice/Ellipsis/array/mask expressions); the broadcast of NumPy advanced indexing '
+        '(Model/Index.v:index_adv, tuples with two or more array entries) is a specification validated against NumPy '
+        'and JAX on the generated scope, not derived from their source; unique_inference_sound, '
+        'gather_positions_in_range, index_T_is_scatter_add_any_tuple and PPt_identity_iff_any_tuple are proved for '
+        'every tuple, any number of array entries'
     )
     trusted = [
-        'NumPy/JAX native indexing `leaf[indices]` as specified by Model/Index.v:index_leaf (ints, slices, one '
-        'Ellipsis, at most one boolean/integer array, NumPy placement of the advanced dimensions); for two or more '
-        'array entries the gather map is read off the implementation (operator applied to arange) - validated '
-        'against NumPy and JAX on the enumerated scope only; out-of-bounds integers are outside the modelled domain',
+        'NumPy/JAX native indexing `leaf[indices]` as specified by Model/Index.v:leaf_gather = index_leaf (ints, slices, '
+        'one Ellipsis, at most one boolean/integer array, NumPy placement of the advanced dimensions) + index_adv (two or '
+        'more array entries: masks as nonzero() index arrays over the merged mask axes, broadcasting of the index arrays '
+        'and ints to a common shape, broadcast axes in place of an adjacent advanced block / in front otherwise, '
+        'ValueError when the shapes do not broadcast) - a specification validated against NumPy and JAX on the '
+        'generated scope (every case is also compared with NumPy by the oracle); out-of-bounds integers are outside '
+        'the modelled domain',
         'jax.linear_transpose of a gather is the scatter-add (zeros.at[sel].add(y)) - compared on every case with '
         'op.T.mv and np.add.at, not proved about JAX',
         'jnp.unique(size=n, fill_value=-1, return_counts=True) and .at[].add with wrap-around of negative positions '
@@ -642,9 +702,9 @@ class Check(PropertyCheck):
                     idx = base[:pos] + [['e']] + base[pos:]
                     if all(np_index(sh, idx) is not None for _ in (0,)):
                         add(idx, [sh])
-        # (C) two or more array entries: the gather is read off the implementation ----------------
+        # (C) two or more array entries: NumPy advanced indexing with broadcasting (Model/Index.v:index_adv) -----
         for sh in ([2, 3], [3, 2, 2], [2, 1, 3]):
-            for _ in range(18 if quick else 150):
+            for _ in range(12 if quick else 100):
                 r = len(sh)
                 axs = sorted(rng.sample(range(r), 2))
                 size = rng.choice([1, 2, 3])
@@ -664,6 +724,37 @@ class Check(PropertyCheck):
                         idx.append(rng.choice([['s', None, None, None], ['i', rng.randrange(-sh[ax], sh[ax])]]))
                 if all(np_index(s, idx) is not None for s in [sh]):
                     add(idx, [sh], level='full' if keep(0.5) else 'lite')
+        for sh in ([2, 3], [3, 2, 2], [2, 1, 3], [2, 3, 2, 2]):
+            got = 0
+            tries = 0
+            while got < (34 if quick else 300) and tries < 5000:
+                tries += 1
+                idx = rand_multi(rng, sh)
+                if n_arrays(idx) < 2 and rng.random() < 0.9:
+                    continue
+                if np_index(sh, idx) is not None:
+                    add(idx, [sh], level='full' if keep(0.4, 0.5) else 'lite', user=rng.choice([None, None, None, False]))
+                    got += 1
+                elif rng.random() < 0.3:  # malformed: NumPy rejects (broadcast / mask-count mismatch)
+                    add(idx, [sh], level='ctor')
+                    add(idx, [sh], level='ctor', outs=[[1]])
+        # several masks only (unique_indices inferred True): all pairs of masks with equal counts on a (2,3) leaf
+        for b0 in itertools.product([False, True], repeat=2):
+            for b1 in itertools.product([False, True], repeat=3):
+                if sum(b0) in (sum(b1), 1) or sum(b1) == 1:
+                    if keep(0.6):
+                        add([['m', [2], list(b0)], ['m', [3], list(b1)]], [[2, 3]], level='full' if keep(0.5) else 'lite')
+                    if keep(0.3):
+                        add([['m', [2], list(b0)], ['e'], ['m', [3], list(b1)]], [[2, 2, 3]], level='lite')
+                    if keep(0.3):
+                        add([['m', [2], list(b0)], ['s', None, None, -1], ['m', [3], list(b1)]], [[2, 2, 3]], level='full' if keep(0.3) else 'lite')
+        # a mask next to an integer array (the uniqueness inference must not count the array as harmless)
+        for bits, vals in (([True, False], [1, 1]), ([True, True], [1, 1]), ([True, True], [2, 0]), ([False, True], [0, -3]),
+                           ([True, False], [0]), ([True, True], [-1])):
+            for user in (None, False):
+                add([['m', [2], bits], arr([len(vals)], vals)], [[2, 3]], user=user)
+                add([arr([len(vals)], [v % 2 for v in vals]), ['e'], ['m', [2], bits]], [[2, 3, 2]], user=user)
+                add([['m', [2], bits], ['s', None, None, None], arr([len(vals)], [v % 2 for v in vals])], [[2, 3, 2]], user=user, level='lite')
         # (D) pytrees with several leaves -------------------------------------------------------
         multi = [[[2, 3], [2, 3]], [[2, 3], [2, 2]], [[2, 3], [2, 3, 2]], [[4], [4], [4]], [[3, 2, 2], [2, 2]]]
         for ins in multi:
@@ -748,8 +839,13 @@ class Check(PropertyCheck):
             'first axis, sampled rank-2 and last-axis masks; ALL integer arrays over [-n,n) of length <= 3 (4) for n <= 3 '
             '(sampled on rank > 1), arrays of rank 0-2 on every axis directly / through an Ellipsis, truthful and '
             'untruthful unique_indices flags; (B) seeded legal tuples of <= 3 entries mixing ints, slices, full slices, an '
-            'Ellipsis and at most one array entry, Ellipsis at every position of fixed tuples; (C) tuples with two array '
-            'entries (gather read off the implementation); (D) pytrees of 2-3 leaves (equal shapes, different shapes, '
+            'Ellipsis and at most one array entry, Ellipsis at every position of fixed tuples; (C) tuples with two or more '
+            'array entries, gather COMPUTED by the model (index_adv): seeded tuples on (2,3),(3,2,2),(2,1,3),(2,3,2,2) of '
+            'integer arrays of rank 0-2 whose shapes broadcast to a common shape (suffixes, stretched 1s), rank-1/rank-2 '
+            'masks, ints, slices and an optional Ellipsis in every order (adjacent block / separated: axes in front), '
+            'user flag None/False; ALL pairs of masks with compatible counts on (2,3), also across an Ellipsis / a reversed '
+            'slice on (2,2,3) (sampled in quick); a mask next to a repeating / non-repeating integer array; NumPy-rejected '
+            'tuples (broadcast or mask-count mismatch) with and without out_structure; (D) pytrees of 2-3 leaves (equal shapes, different shapes, '
             'different ranks; dict/list/tuple); (G) the integer KIND of index arrays: for every JAX dtype in '
             '{int8,int16,int32,uint8,uint16,uint32} (x64 off; the arrays of the random classes B, C, D draw their kind '
             'too): ALL value tuples of length <= 2 (3 sampled) on a (3,) leaf, ALL 0/1 arrays of the length of the axis '
@@ -821,10 +917,7 @@ class Check(PropertyCheck):
         op = attempt(lambda: indices.IndexOperator(arg, in_structure=structure(ins, cont), **kw))
         if op[0] == 'err':
             return {'error': op[1]}
-        obs = observe(op[1], case)
-        if n_arrays(case['idx']) >= 2 and isinstance(obs[3], list):
-            case['_ext'] = obs[3]  # the gather of broadcast advanced indices is NumPy's, not furax's
-        return obs
+        return observe(op[1], case)
 
     def comparable(self, case, obs):
         if isinstance(obs, list):
@@ -843,20 +936,18 @@ class Check(PropertyCheck):
         arg = f'(ASingle {ents[0]})' if case['single'] else f'(ATuple {clist(ents)})'
         outs = copt(case['outs'], lambda o: clist(o, cshape))
         user = copt(case['user'], cbool)
-        ext = clist(case.get('_ext') or [], lambda g: f'(mkG {cshape(g[0])} {clist(g[1], cnat)})')
-        return f'obs_index {arg} {ins} {outs} {user} {ext} {self._ys_term(case)}'
+        return f'obs_index {arg} {ins} {outs} {user} {self._ys_term(case)}'
 
     def _ys_term(self, case):
-        """y = 1..m per output leaf; the output sizes come from the NumPy reference (or the external gather)."""
+        """y = 1..m per output leaf; the output sizes come from the NumPy reference."""
         ys = []
         if case['kind'] == 'pack':
             idx = [['m', case['msh'], case['bits']]]
         else:
             idx = case['idx']
         for k, sh in enumerate(case['ins']):
-            ext = case.get('_ext')
             r = np_index(sh, idx)
-            m = len(ext[k][1]) if ext and k < len(ext) else (len(r[1]) if r else 0)
+            m = len(r[1]) if r else 0
             ys.append(list(range(1, m + 1)))
         return clist(ys, lambda y: clist(y, cz))
 
